@@ -1488,7 +1488,10 @@ func (s *PrintCtx) appendValue(val any) {
 		// }
 
 		// TODO remove usage to fmt.Sprintf
-		s.pcTryQuoteValue(fmt.Sprintf("{{%v}}", z))
+		// the text is fmt's %v of an arbitrary value: it can hold line breaks,
+		// control and escape bytes. Quote and escape it in coloured mode too,
+		// so that it can neither break the line nor recolour the terminal.
+		s.pcQuoteValue(fmt.Sprintf("{{%v}}", z))
 	}
 }
 
